@@ -77,6 +77,16 @@ def gen_section(r, tok, kind=None, paths=None, **kw):
     p = r.choice(paths)
     q = r.choice([x for x in paths if x != p])
     hunks = []
+    if kind == "diffu":
+        # plain `diff -u` output: no `diff --git` line; removed / added lines may themselves begin with
+        # "-- " / "++ " (SQL, Lua, Haskell comments), which makes them look like file header lines
+        hunks = [gen_hunk(r, tok, **kw) for _ in range(r.randint(1, 3))]
+        for h in hunks:
+            h["body"] = [(k, (r.choice(["-- ", "-- ", "++ "]) + t) if (k in "-+" and r.random() < 0.35) else t) for k, t in h["body"]]
+            # `diff` always prints the true line counts (delta relies on them to tell a removed "-- x" line from a header)
+            na = sum(1 for k, _ in h["body"] if k in " -")
+            nb = sum(1 for k, _ in h["body"] if k in " +")
+            h["header"] = f"@@ -{h['old_start']},{na} +{h['new_start']},{nb} @@" + h["frag"]
     if kind in ("mod", "add", "del", "renmod", "modemod"):
         hunks = [gen_hunk(r, tok, **kw) for _ in range(r.randint(1, 3))]
         if kind in ("add", "del"):
@@ -131,6 +141,9 @@ def make_section(kind, p, q, hunks):
     elif kind == "empty":
         head = [f"diff --git a/{p} b/{p}", "new file mode 100644", "index 0000000..e69de29"]
         old = "/dev/null"
+    elif kind == "diffu":
+        head = [f"--- a/{p}\t2020-01-01 00:00:00.000000000 +0000", f"+++ b/{p}\t2020-01-02 00:00:00.000000000 +0000"]
+        old, new = "a/" + p, "b/" + p
     return {"kind": kind, "old": old, "new": new, "head": head, "hunks": hunks}
 
 
